@@ -16,5 +16,7 @@ GROUP = dict(
     jobs=[
         dict(id='C04.growth.slow', enforce='V128_get_qualified_block_table_slow', loops=True, mem_gb=20, timeout=2400, defines=['MAXN 1048576UL'],
              covers=['g_won && g_win_oldn > 2 && g_expect > g_win_oldn + 3', '!g_won && g_created > 3 && g_cur_ver > 1']),
+        dict(id='C04.growth.fast', enforce='V128_get_qualified_block_table', replace=['V128_get_qualified_block_table_slow'], defines=['VF_FAST_JOB 1', 'MAXN 1048576UL'],
+             covers=['g_size0 >= g_expect', 'g_size0 < g_expect && g_won', 'g_size0 < g_expect && !g_won']),
     ],
 )
